@@ -75,3 +75,29 @@ package rtpdump
 //@ ensures err == nil && ret0.Offset == p.Offset && ret0.IsRTCP == p.IsRTCP && len(ret0.Payload) == len(p.Payload)
 //@ ensures forall i int :: 0 <= i && i < len(p.Payload) ==> ret0.Payload[i] == p.Payload[i]
 //@ modifies nothing
+
+// ---- stream model (assumed contract on io): the reader delivers the bytes of a
+// fixed finite byte string ufbyte("stream", i), i < ufint("streamlen"); the ghost
+// counter rdpos is the number of bytes consumed so far.
+//@ func io.ReadFull
+//@ trusted
+//@ requires r != nil
+//@ ghost rdpos += n
+//@ ensures 0 <= n && n <= len(buf) && ((err == nil) == (n == len(buf)))
+//@ ensures ufint("streamlen") >= 0 && old(ghost(rdpos)) <= uint64(ufint("streamlen"))
+//@ ensures (err == nil) == (old(ghost(rdpos)) + uint64(len(buf)) <= uint64(ufint("streamlen")))
+//@ ensures err == nil ==> (forall i int :: 0 <= i && i < len(buf) ==> buf[i] == ufbyte("stream", int(old(ghost(rdpos))) + i))
+//@ ensures err != nil ==> (forall i int :: 0 <= i && i < n ==> buf[i] == ufbyte("stream", int(old(ghost(rdpos))) + i))
+//@ modifies elems(buf)
+
+//@ func (*Reader).Next
+//@ props C36 C37
+//@ requires r != nil && r.reader != nil
+//@ requires ghost(rdpos) < 1<<40 && ufint("streamlen") < 1<<40
+//@ observe recordLength := uint16(ufbyte("stream", int(old(ghost(rdpos)))))<<8 | uint16(ufbyte("stream", int(old(ghost(rdpos)))+1))
+//@ ensures err == nil ==> ghost(rdpos) >= old(ghost(rdpos)) + 8
+//@ ensures old(ghost(rdpos)) + 8 <= uint64(ufint("streamlen")) && (uint16(ufbyte("stream", int(old(ghost(rdpos)))))<<8 | uint16(ufbyte("stream", int(old(ghost(rdpos)))+1))) < 8 ==> err != nil
+//@ ensures err == nil ==> ghost(rdpos) == old(ghost(rdpos)) + uint64(uint16(ufbyte("stream", int(old(ghost(rdpos)))))<<8 | uint16(ufbyte("stream", int(old(ghost(rdpos)))+1)))
+//@ ensures err == nil ==> len(ret0.Payload) + 8 == int(uint16(ufbyte("stream", int(old(ghost(rdpos)))))<<8 | uint16(ufbyte("stream", int(old(ghost(rdpos)))+1)))
+//@ ensures err == nil ==> (forall i int :: 0 <= i && i < len(ret0.Payload) ==> ret0.Payload[i] == ufbyte("stream", int(old(ghost(rdpos))) + 8 + i))
+//@ ensures err == nil ==> ret0.IsRTCP == (ufbyte("stream", int(old(ghost(rdpos)))+2) == 0 && ufbyte("stream", int(old(ghost(rdpos)))+3) == 0)
